@@ -50,6 +50,8 @@ def random_precond(g, target: Target):
 
 def build(cfg, probe=None, rng=None, fit=True):
     t = Target.from_desc(cfg["target"])
+    if probe is None and cfg.get("cut_below") is not None:
+        probe = Probe(t, cut_below=cfg["cut_below"])
     fk = proposal_for(t, truncate=cfg["flow"].get("truncate", False), widen=cfg["flow"].get("widen", 1.6), shift=cfg["flow"].get("shift", 0.0))
     if cfg["flow"].get("family"):
         fk["family"] = cfg["flow"]["family"]
